@@ -907,6 +907,14 @@ func interpreted(k *kind, c claim) string {
 	if f := v.FieldByName("TargetIbc"); f.IsValid() {
 		f.SetString(fmt.Sprintf("%+v", fxtypes.ParseFxTarget(f.String(), true)))
 	}
+	// an address the handlers read only through its typed accessor (regenerated handlerView): the account it names
+	if chain := v.FieldByName("ChainName").String(); knownChain(chain) {
+		for name := range typedOnly[k.name] {
+			if f := v.FieldByName(name); f.IsValid() && f.Kind() == reflect.String && ct.ValidateExternalAddr(chain, f.String()) == nil {
+				f.SetString("@" + ct.ExternalAddrToHexAddr(chain, f.String()).Hex())
+			}
+		}
+	}
 	return k.effect(cp)
 }
 
